@@ -44,7 +44,7 @@ static void scenario(const vh::Json& sc, vh::Out& out, vh::Rng& rng, const vh::A
         if (rawbase.empty()) return;
     }
     if (base.has("cls")) { const std::string cn = base["cls"].str();      // an independent-encoder message for an application-layer class
-        sub_type = cn == "RTP" ? PDU::RTP : cn == "DNS" ? PDU::DNS : cn == "DHCP" ? PDU::DHCP : cn == "BOOTP" ? PDU::BOOTP : cn == "DHCPv6" ? PDU::DHCPv6 : cn == "VXLAN" ? PDU::VXLAN : PDU::UNKNOWN; }
+        sub_type = cn == "RTP" ? PDU::RTP : cn == "DNS" ? PDU::DNS : cn == "DHCP" ? PDU::DHCP : cn == "BOOTP" ? PDU::BOOTP : cn == "DHCPv6" ? PDU::DHCPv6 : cn == "VXLAN" ? PDU::VXLAN : cn == "RadioTap" ? PDU::RADIOTAP : PDU::UNKNOWN; }
     auto parse = [&](const uint8_t* p, uint32_t n) -> PDU* { return sub_type != PDU::UNKNOWN ? construct(sub_type, p, n) : parse_entry(entry, p, n); };
     if (!built && rawbase.empty()) return;
     out.begin("\"base\":\"" + bname + "\",\"entry\":\"" + entry_name(entry) + "\",\"mut\":\"" + mut["k"].str() + "\"");
